@@ -1,0 +1,8 @@
+//go:build !verif
+
+// Package verifyield provides named schedule-perturbation points for the
+// runtime monitors under /verif.  Without the "verif" build tag Point is empty.
+package verifyield
+
+// Point does nothing without the verif build tag.
+func Point(string) {}
